@@ -28,15 +28,49 @@ def _norm(e) -> str:
     return vstr(e)
 
 
+def _cov_writers(chk, repo):
+    """Who may write the stored covariance of a Gaussian: the `cov` setter stores the user's value, compute_cov stores inv(sqrtprec.T@sqrtprec) (decided
+    by the Gram rule above), every other parameterisation only clears it.  A setter of another parameterisation that pre-populates `_cov` hands the
+    closed-form MAP / direct sampler a covariance that was never validated against that parameterisation's storage forms (vector of stds, scalar, sparse)."""
+    G = repo.cls("cuqi/distribution/_gaussian.py:Gaussian")
+    n = 0
+    for kind, name, fn in G.all_functions():
+        for st in ast.walk(fn):
+            if not isinstance(st, (ast.Assign, ast.AugAssign, ast.AnnAssign)):
+                continue
+            tg = st.targets if isinstance(st, ast.Assign) else [st.target]
+            tg = [t for T in tg for t in (T.elts if isinstance(T, (ast.Tuple, ast.List)) else [T])]
+            if not any(path_of(t) == "self._cov" for t in tg):
+                continue
+            n += 1
+            inst = f"{G.qual}.{'@' if kind in ('getter', 'setter') else ''}{name}{'=' if kind == 'setter' else ''}/_cov"
+            v = getattr(st, "value", None)
+            if name == "compute_cov":
+                chk.ok("C15-R6", inst, site(repo, st), "compute_cov stores the covariance it derived (Gram rule)", st)
+            elif kind == "setter" and name == "cov":
+                ok = isinstance(v, ast.Name) and v.id == func_params(fn)[1] and isinstance(st, ast.Assign)
+                chk.add("C15-R6", inst, ok, site(repo, st), "the cov setter stores the value it was given", f"the cov setter stores `{unparse(v)}` instead of its argument", st)
+            else:
+                ok = isinstance(st, ast.Assign) and isinstance(v, ast.Constant) and v.value is None
+                chk.add("C15-R6", inst, ok, site(repo, st), "other writers only clear the stored covariance",
+                        f"`{unparse(st)[:80]}` pre-populates the stored covariance outside the cov setter / compute_cov: the expression is not the covariance for every "
+                        f"storage form of this parameterisation (for a 1-D vector of standard deviations S@S.T is the scalar sum of squares, not diag(S**2)), and the "
+                        f"closed-form MAP and the direct sampler read it without further checks", st)
+    if n < 4:
+        raise AnchorError(f"Gaussian: {n} writers of _cov found, at least 4 confirmed by hand (cov setter, clears, compute_cov)")
+
+
 def run(chk, repo: Repo):
     chk.rule("C15-R1", "covariance consumers normalise scalar, vector and matrix storage forms", floor=4)
     chk.rule("C15-R2", "closed-form MAP: Tarantola (3.37-3.38) from get_matrix(), data, prior mean/cov, noise cov; route selected by type and size", floor=2)
     chk.rule("C15-R3", "optimiser receives -logd and -gradient of the same density; result wrapped with that density's geometry", floor=3)
     chk.rule("C15-R4", "direct sampling: x_map.parameters + chol(inv(A.T Ce^-1 A + Cx^-1)) @ N(0, I)", floor=1)
     chk.rule("C15-R5", "no in-place operation of MAP/_sampleMapCholesky may reach stored problem data", floor=2)
-    chk.rule("C15-R6", "the covariance the direct route reads (Gaussian.compute_cov) is inv(sqrtprec.T @ sqrtprec), the covariance of the log-density", floor=1)
+    chk.rule("C15-R6", "the covariance the direct route reads (Gaussian.compute_cov) is inv(sqrtprec.T @ sqrtprec), the covariance of the log-density; "
+                       "only the cov setter and compute_cov populate the stored covariance", floor=5)
     from ..gram import gram_orientation
     gram_orientation(chk, repo, "C15-R6", only={"Gaussian.compute_cov"})
+    _cov_writers(chk, repo)
     bp = repo.cls(BP)
     mp = repo.method(bp, "MAP")[1]
     sc = repo.method(bp, "_sampleMapCholesky")[1]
@@ -51,26 +85,28 @@ def run(chk, repo: Repo):
     DIRECT = "self._check_posterior(self,Gaussian,Gaussian,LinearModel,max_dim=config.MAX_DIM_INV)"
 
     def cov(raw, form, dim):
-        return {"scalar": f"{raw}.ravel()[0]*np.eye({dim})", "vector": f"np.diag({raw})", "matrix": raw}[form]
+        # "scalar1d": a scalar variance stored as a 1-D array of length one (np.array([v]), the value of cov=lambda s: 1/s at a length-1 s): size 1 AND one axis
+        return {"scalar": f"{raw}.ravel()[0]*np.eye({dim})", "scalar1d": f"{raw}.ravel()[0]*np.eye({dim})", "vector": f"np.diag({raw})", "matrix": raw}[form]
 
     def valuation(fe, fx, direct=True):
         v = {"disp": False, DIRECT: direct}
         for raw, form in ((E, fe), (X, fx)):
-            v[f"np.size({raw})==1"] = form == "scalar"
+            v[f"np.size({raw})==1"] = form in ("scalar", "scalar1d")
             for vec in (f"np.ndim({raw})==1", f"{raw}.ndim==1", f"len({raw}.shape)==1", f"len(np.shape({raw}))==1"):
-                v[vec] = form == "vector"
+                v[vec] = form in ("vector", "scalar1d")
         return {pn(_SymOrder().visit(ast.parse(k, mode="eval").body)): val for k, val in v.items()}
 
     def canon_txt(t):
         return pn(_SymOrder().visit(ast.parse(t, mode="eval").body))
     FORMS = ("scalar", "vector", "matrix")
+    FORMS1 = ("scalar", "scalar1d", "vector", "matrix")
     KEEP = {"_check_posterior", "_solve_max_point", "MAP", "_sampleMapCholesky"}
     mpv = canon_keep(repo, bp, mp, KEEP)
     scv = canon_keep(repo, bp, sc, KEEP)
     # ---- MAP
     results = {}
-    for fe in FORMS:
-        for fx in FORMS:
+    for fe in FORMS1:
+        for fx in FORMS1:
             results[(fe, fx)] = walk(mpv, valuation(fe, fx), pn)
 
     def want_map(fe, fx):
@@ -79,7 +115,7 @@ def run(chk, repo: Repo):
     undec = [r for r in results.values() if r[0] == "unknown"]
     for role, idx, raw, dim in (("noise", 0, E, "self.model.range_dim"), ("prior", 1, X, "self.model.domain_dim")):
         problems = []
-        for form in FORMS:
+        for form in FORMS1:
             key = (form, "matrix") if idx == 0 else ("matrix", form)
             kind, res = results[key]
             if kind == "unknown":
@@ -87,7 +123,10 @@ def run(chk, repo: Repo):
             got = canon_txt(unparse(res)) if kind == "return" else kind
             if got != want_map(*key):
                 have = canon_txt(cov(raw, form, dim))
-                if form == "scalar":
+                if form == "scalar1d":
+                    problems.append(f"a scalar {role} variance stored as a 1-D array of length one (size 1 and one axis) is not expanded to c*I of size {dim}: "
+                                    f"the one-axis test wins and np.diag gives a 1x1 matrix that is broadcast over the whole system matrix")
+                elif form == "scalar":
                     problems.append(f"a scalar {role} covariance (stored as a (1,1) array) is not expanded to c*I of size {dim}")
                 elif form == "vector":
                     problems.append(f"a vector of {role} variances (stored 1-D) is not placed on a diagonal: it would be broadcast-added to every row / inverted element-wise")
@@ -186,7 +225,7 @@ def run(chk, repo: Repo):
     # ---- R4 (and R1 for the sampler): the state at the sampling loop
     for role, idx, raw, dim in (("noise", 0, E, "self.model.range_dim"), ("prior", 1, X, "self.model.domain_dim")):
         problems, undec = [], []
-        for form in FORMS:
+        for form in FORMS1:
             key = (form, "matrix") if idx == 0 else ("matrix", form)
             kind, res = walk(scv, valuation(*key), pn)
             if kind != "loop":
@@ -197,7 +236,9 @@ def run(chk, repo: Repo):
             wantC = canon_txt(f"np.linalg.inv({A}.T@(np.linalg.inv({Ce})@{A})+np.linalg.inv({Cx}))")
             vals = {canon_txt(unparse(v_)) for v_ in env.values() if isinstance(v_, ast.AST) and not isinstance(v_, ast.FunctionDef)}
             if not any(wantC == v_ or f"np.linalg.cholesky({wantC})" == v_ for v_ in vals):
-                if form == "scalar":
+                if form == "scalar1d":
+                    problems.append(f"a scalar {role} variance stored as a 1-D array of length one (size 1 and one axis) is not expanded to c*I of size {dim}")
+                elif form == "scalar":
                     problems.append(f"a scalar {role} covariance (stored as a (1,1) array) is not expanded to c*I of size {dim}")
                 elif form == "vector":
                     problems.append(f"a vector of {role} variances (stored 1-D) is not placed on a diagonal: it would be broadcast-added to every row / inverted element-wise")
